@@ -1,2 +1,260 @@
-// Package c19: implementation-side ops, generators and oracles for property C19.
+// Package c19: implementation-side ops, generators and oracles for property C19
+// (typed columns come back in the declared type or per the failure policy).
 package c19
+
+import (
+	"context"
+	"encoding/base64"
+	"errors"
+	"fmt"
+	"io"
+	"strconv"
+	"strings"
+	"unicode/utf8"
+
+	"github.com/sirupsen/logrus"
+
+	acracensor "github.com/cossacklabs/acra/acra-censor"
+	"github.com/cossacklabs/acra/cmd/acra-server/common"
+	"github.com/cossacklabs/acra/decryptor/base"
+	my "github.com/cossacklabs/acra/decryptor/mysql"
+	mybase "github.com/cossacklabs/acra/decryptor/mysql/base"
+	pg "github.com/cossacklabs/acra/decryptor/postgresql"
+	encryptor "github.com/cossacklabs/acra/encryptor/base"
+	"github.com/cossacklabs/acra/encryptor/base/config"
+	"github.com/cossacklabs/acra/sqlparser"
+
+	"verifharness/internal/core"
+)
+
+var quietLogger = func() *logrus.Entry {
+	l := logrus.New()
+	l.SetOutput(io.Discard)
+	l.SetLevel(logrus.PanicLevel)
+	return logrus.NewEntry(l)
+}()
+
+// settingYAML renders the encryptor config of one encryption-only column `c` of table `t`.
+// typ: int32|int64|str|bytes|none; onFail: ciphertext|default_value|error|empty; dflt: nil or the default string.
+func settingYAML(typ, onFail string, dflt *string) string {
+	var b strings.Builder
+	b.WriteString("schemas:\n  - table: t\n    columns:\n      - id\n      - c\n    encrypted:\n      - column: c\n")
+	if typ != "none" {
+		b.WriteString("        data_type: " + typ + "\n")
+	}
+	if onFail != "empty" {
+		b.WriteString("        response_on_fail: " + onFail + "\n")
+	}
+	if dflt != nil {
+		b.WriteString("        default_data_value: " + yamlQuote(*dflt) + "\n")
+	}
+	return b.String()
+}
+
+// yamlQuote renders a (valid UTF-8) string as a YAML double-quoted scalar.
+func yamlQuote(s string) string {
+	var b strings.Builder
+	b.WriteByte('"')
+	for _, r := range s {
+		switch {
+		case r == '"':
+			b.WriteString(`\"`)
+		case r == '\\':
+			b.WriteString(`\\`)
+		case r < 0x20 || r == 0x7f:
+			fmt.Fprintf(&b, `\x%02x`, r)
+		default:
+			b.WriteRune(r)
+		}
+	}
+	b.WriteByte('"')
+	return b.String()
+}
+
+func parseDefault(tok string) *string {
+	if tok == "none" {
+		return nil
+	}
+	s := string(core.UnHex(tok))
+	return &s
+}
+
+// loadSetting parses the generated YAML with Acra's own loader and returns the column's setting object.
+func loadSetting(typ, onFail, dfltTok string, mysql bool) (config.ColumnEncryptionSetting, config.TableSchemaStore, error) {
+	store, err := config.MapTableSchemaStoreFromConfig([]byte(settingYAML(typ, onFail, parseDefault(dfltTok))), mysql)
+	if err != nil {
+		return nil, nil, err
+	}
+	ts := store.GetTableSchema("t")
+	if ts == nil {
+		return nil, nil, errors.New("no table schema")
+	}
+	s := ts.GetColumnEncryptionSettings("c")
+	if s == nil {
+		return nil, nil, errors.New("no column setting")
+	}
+	return s, store, nil
+}
+
+// revealSubscriber stands in for the detector/decrypt subscribers: it either reveals a fixed
+// plaintext (marking the context as decrypted, as DecryptHandler does) or passes the data through.
+type revealSubscriber struct{ plain []byte }
+
+func (s *revealSubscriber) ID() string { return "verif-reveal" }
+func (s *revealSubscriber) OnColumn(ctx context.Context, data []byte) (context.Context, []byte, error) {
+	if s.plain == nil {
+		return ctx, data, nil
+	}
+	return base.MarkDecryptedContext(ctx), append([]byte{}, s.plain...), nil
+}
+
+// settingSubscriber puts the column's setting into the context (what the MySQL query encryptor
+// subscriber does for a matched SELECT; the PostgreSQL proxy does it itself in onColumnDecryption).
+type settingSubscriber struct {
+	setting config.ColumnEncryptionSetting
+}
+
+func (s *settingSubscriber) ID() string { return "verif-setting" }
+func (s *settingSubscriber) OnColumn(ctx context.Context, data []byte) (context.Context, []byte, error) {
+	return encryptor.NewContextWithEncryptionSetting(ctx, s.setting), data, nil
+}
+
+func revealOf(tok string) *revealSubscriber {
+	if tok == "none" {
+		return &revealSubscriber{}
+	}
+	p := core.UnHex(tok)
+	if p == nil {
+		p = []byte{}
+	}
+	return &revealSubscriber{plain: p}
+}
+
+func showErr(err error) string {
+	var ee *base.EncodingError
+	if errors.As(err, &ee) {
+		return "encerr"
+	}
+	return core.Err
+}
+
+func newPgProxy(store config.TableSchemaStore, subs ...base.DecryptionSubscriber) (*pg.PgProxy, context.Context) {
+	ctx := context.Background()
+	session, err := common.NewClientSession(ctx, nil, nil)
+	if err != nil {
+		panic("harness: " + err.Error())
+	}
+	ctx = base.SetClientSessionToContext(ctx, session)
+	ctx = base.SetAccessContextToContext(ctx, base.NewAccessContext(base.WithClientID([]byte("client"))))
+	parser := sqlparser.New(sqlparser.ModeDefault)
+	setting := base.NewProxySetting(parser, store, nil, nil, acracensor.NewAcraCensor(), nil)
+	proxy, err := pg.NewPgProxy(session, parser, setting)
+	if err != nil {
+		panic("harness: " + err.Error())
+	}
+	for _, s := range subs {
+		proxy.SubscribeOnAllColumnsDecryption(s)
+	}
+	return proxy, ctx
+}
+
+func init() {
+	core.Register("C19.parseint", func(a []string) string {
+		n, err := strconv.ParseInt(string(core.UnHex(a[1])), 10, core.Atoi(a[0]))
+		if err != nil {
+			return core.Err
+		}
+		return fmt.Sprintf("ok %d", n)
+	})
+	core.Register("C19.formatint", func(a []string) string {
+		n, err := strconv.ParseInt(a[0], 10, 64)
+		if err != nil {
+			panic("harness: bad int " + a[0])
+		}
+		return core.OkHex([]byte(strconv.FormatInt(n, 10)))
+	})
+	// C19.setting <type> <onFail> <default> <utf8> <b64>: does Acra's config loader accept the column, and which policy results
+	for _, db := range []string{"pg", "my"} {
+		mysql := db == "my"
+		core.Register("C19.setting."+db, func(a []string) string {
+			s, _, err := loadSetting(a[0], a[1], a[2], mysql)
+			if err != nil {
+				return core.Err
+			}
+			return "ok " + policyName(string(s.GetResponseOnFail()))
+		})
+	}
+	// PostgreSQL: one column through the real onColumnDecryption with decoder → reveal → encoder
+	core.Register("C19.pg.read", func(a []string) string {
+		setting, store, err := loadSetting(a[0], a[1], a[2], config.UsePostgreSQL)
+		if err != nil {
+			return "badsetting"
+		}
+		dec, _ := pg.NewPgSQLDataDecoderProcessor()
+		enc, _ := pg.NewPgSQLDataEncoderProcessor()
+		proxy, ctx := newPgProxy(store, dec, revealOf(a[6]), enc)
+		out, err := proxy.VerifOnColumnDecryption(ctx, 1, core.UnHex(a[7]), a[5] == "binary", setting)
+		if err != nil {
+			return showErr(err)
+		}
+		return "value " + core.Hex(out) + " false"
+	})
+	// MySQL: one-column row through the real row processors with setting → decoder → reveal → encoder;
+	// the column description is rewritten by the real updateFieldEncodedType and rolled back by the row processor.
+	core.Register("C19.my.read", func(a []string) string {
+		setting, store, err := loadSetting(a[0], a[1], a[2], config.UseMySQL)
+		if err != nil {
+			return "badsetting"
+		}
+		binary := a[5] == "binary"
+		origType := mybase.Type(core.Atoi(a[6]))
+		value := core.UnHex(a[8])
+		field := &my.ColumnDescription{Table: []byte("t"), Name: []byte("c"), Type: origType}
+		my.VerifUpdateFieldEncodedType(field, store)
+		h := my.VerifNewHandler(quietLogger, &settingSubscriber{setting}, my.NewDataDecoderProcessor(), revealOf(a[7]), my.NewDataEncoderProcessor())
+		ctx := base.SetAccessContextToContext(context.Background(), base.NewAccessContext(base.WithClientID([]byte("client"))))
+		var out []byte
+		hdr := 0
+		if binary {
+			row := append([]byte{0, 0}, myWire(origType, value)...)
+			hdr = 2
+			out, err = h.VerifProcessBinaryDataRow(ctx, row, []*my.ColumnDescription{field})
+		} else {
+			out, err = h.VerifProcessTextDataRow(ctx, mybase.PutLengthEncodedString(value), []*my.ColumnDescription{field})
+		}
+		if err != nil {
+			return showErr(err)
+		}
+		changed, origin := field.VerifChanged()
+		rollback := changed && field.Type == origin
+		return fmt.Sprintf("value %s %v %d", core.Hex(out[hdr:]), rollback, field.Type)
+	})
+}
+
+func policyName(p string) string { return p }
+
+// myWire: a value as stored in a binary row under a type (fixed width as it is, otherwise length-encoded)
+func myWire(t mybase.Type, v []byte) []byte {
+	if _, ok := mybase.NumericTypesStorageBytes[t]; ok {
+		return v
+	}
+	if v == nil {
+		v = []byte{}
+	}
+	return mybase.PutLengthEncodedString(v)
+}
+
+// tokens describing a default for the model: utf8 validity and base64 decoding
+func defaultTokens(d *string) (dflt, utf, b64 string) {
+	if d == nil {
+		return "none", "true", "none"
+	}
+	dflt = core.Hex([]byte(*d))
+	utf = strconv.FormatBool(utf8.ValidString(*d))
+	if b, err := base64.StdEncoding.DecodeString(*d); err == nil {
+		b64 = core.Hex(b)
+	} else {
+		b64 = "none"
+	}
+	return
+}
